@@ -225,7 +225,8 @@ def check(ctx):
     ctx.inst('R6', cb, 'deleted-on-delete-ok', under(('block.started', 'False'), 'CMD_DELETE_BLOCK', fact_key('error_status == 0 or error_status == errno.ENOENT', True)) and
              under(('block.added', 'False'), 'CMD_DELETE_BLOCK', fact_key('error_status == 0 or error_status == errno.ENOENT', True)), 'delete (ok / ENOENT) clears both flags')
     ctx.inst('R6', cb, 'flag-sites', len(flags) == 5, 'exactly five flag updates (create, start, stop, delete x2); found %d' % len(flags))
-    st = {norm(s.targets[0]): norm(s.value) for s in walk_own(cb.node) if isinstance(s, ast.Assign) and isinstance(s.targets[0], ast.Name)}
+    st = {norm(n.ast.targets[0]): norm(n.ast.value) for n in g.nodes if n.kind == 'stmt' and isinstance(n.ast, ast.Assign) and isinstance(n.ast.targets[0], ast.Name)
+          and fact_key('chan == CHAN_LOGDATA', True) not in g.fact_keys_at(n)}
     ctx.inst('R6', cb, 'ack-fields', st.get('cmd') == 'packet.data[0]' and st.get('payload') == 'packet.data[1:]' and st.get('error_status') == 'payload[1]' and st.get('block') == 'self._find_block(id)',
              'cmd = data[0], block id = payload[0], status = payload[1]')
     for prop_name, setter in (('added', '_set_added'), ('started', '_set_started')):
@@ -246,18 +247,45 @@ def check(ctx):
              'late reset reply must not drop blocks added since')
 
     # ---- R7 ---------------------------------------------------------------------------------------
-    dn = [n for n in g.nodes if n.kind == 'stmt' and isinstance(n.ast, ast.Assign) and norm(n.ast.targets[0]) in ('timestamps', 'timestamp', 'logdata', 'id', 'block')
-          and fact_key('chan == CHAN_LOGDATA', True) in g.fact_keys_at(n)]
-    dd = {norm(n.ast.targets[0]): n.ast.value for n in dn}
-    ctx.inst('R7', cb, 'data-id', norm(dd.get('id')) == 'packet.data[0]' and norm(dd.get('block')) == 'self._find_block(id)', 'block id is byte 0 of the data packet')
-    ctx.inst('R7', cb, 'timestamp-bytes', norm(dd.get('timestamps')) == "struct.unpack('<BBB', packet.data[1:4])", 'timestamp bytes are data[1:4]')
-    if 'timestamp' in dd:
-        tb = B_.evaluate(dd['timestamp'], Scope.of(cb), {'timestamps[0]': 't0', 'timestamps[1]': 't1', 'timestamps[2]': 't2'}, {'t0': 8, 't1': 8, 't2': 8})
-        ctx.inst('R7', cb, 'timestamp-little-endian', B_.is_input_field(tb, 0, 8, 't0') and B_.is_input_field(tb, 8, 8, 't1') and B_.is_input_field(tb, 16, 8, 't2') and all(b == 0 for b in tb[24:]),
-                 '24-bit timestamp = t0 | t1 << 8 | t2 << 16; bits %s' % B_.describe(tb, 24))
-    ctx.inst('R7', cb, 'payload-offset', norm(dd.get('logdata')) == 'packet.data[4:]', 'payload starts at byte 4')
-    up = [c for c in walk_own(cb.node) if method_call(c, 'unpack_log_data')]
-    ctx.inst('R7', cb, 'decode-call', len(up) == 1 and [norm(a) for a in up[0].args] == ['logdata', 'timestamp'] and norm(up[0].func.value) == 'block', 'the block decodes (logdata, timestamp)')
+    # the decode call of a data packet; every argument is read back through the locals that carry it (whatever they are called)
+    up = [(n, c) for n, c in g.find(lambda q: method_call(q, 'unpack_log_data')) if fact_key('chan == CHAN_LOGDATA', True) in g.fact_keys_at(n)]
+    ctx.inst('R7', cb, 'decode-call', len(up) == 1 and len(up[0][1].args) == 2 and not up[0][1].keywords, 'the block decodes (logdata, timestamp), once, for data packets')
+    if len(up) == 1 and len(up[0][1].args) == 2:
+        un, uc = up[0]
+        blk = uc.func.value
+        if isinstance(blk, ast.Name):
+            ds = g.reaching_defs(un, blk.id)
+            if len(ds) == 1 and g.def_value(ds[0], blk.id) is not None:
+                blk = g.expand_locals(ds[0], g.def_value(ds[0], blk.id))
+        ctx.inst('R7', cb, 'data-id', norm(blk) == 'self._find_block(packet.data[0])', 'block id is byte 0 of the data packet; the receiver is %s' % norm(blk))
+        ctx.inst('R7', cb, 'payload-offset', norm(g.expand_locals(un, uc.args[0])) == 'packet.data[4:]', 'payload starts at byte 4; decoded bytes are %s' % norm(g.expand_locals(un, uc.args[0])))
+        # timestamp: an expression over the three bytes unpacked from data[1:4], reached as  ts[i]  or through  a, b, c = unpack(..)
+        tsx = uc.args[1]
+        tn = un
+        if isinstance(tsx, ast.Name):
+            ds = g.reaching_defs(un, tsx.id)
+            if len(ds) == 1 and g.def_value(ds[0], tsx.id) is not None:
+                tn, tsx = ds[0], g.def_value(ds[0], tsx.id)
+        env, src_ok = {}, True
+        for leaf in [x for x in ast.walk(tsx) if isinstance(x, ast.Name) and isinstance(x.ctx, ast.Load)]:
+            ds = g.reaching_defs(tn, leaf.id)
+            if len(ds) != 1 or not isinstance(ds[0].ast, ast.Assign):
+                src_ok = False
+                continue
+            tg, val = ds[0].ast.targets[0], ds[0].ast.value
+            if norm(val) != "struct.unpack('<BBB', packet.data[1:4])":
+                src_ok = False
+            elif isinstance(tg, ast.Name):
+                env.update({'%s[%d]' % (tg.id, i): 't%d' % i for i in range(3)})
+            elif isinstance(tg, (ast.Tuple, ast.List)) and len(tg.elts) == 3:
+                env.update({norm(e): 't%d' % i for i, e in enumerate(tg.elts)})
+            else:
+                src_ok = False
+        ctx.inst('R7', cb, 'timestamp-bytes', src_ok and bool(env), "timestamp bytes are struct.unpack('<BBB', packet.data[1:4])")
+        if env:
+            tb = B_.evaluate(tsx, Scope.of(cb), env, {'t0': 8, 't1': 8, 't2': 8})
+            ctx.inst('R7', cb, 'timestamp-little-endian', B_.is_input_field(tb, 0, 8, 't0') and B_.is_input_field(tb, 8, 8, 't1') and B_.is_input_field(tb, 16, 8, 't2') and all(b == 0 for b in tb[24:]),
+                     '24-bit timestamp = t0 | t1 << 8 | t2 << 16; bits %s' % B_.describe(tb, 24))
     ul = C.method('unpack_log_data')
     lp = [l for l in walk_own(ul.node) if isinstance(l, ast.For)]
     ctx.need(len(lp) == 1, 'unpack_log_data: loop not found')
